@@ -53,9 +53,9 @@ import (
 
 // c07ApiScenarios lists (scenario, driver kinds it applies to: g generic, n network, p platform, c netconf).
 var c07ApiScenarios = []struct{ Name, Kinds string }{
-	{"idle", "gnpc"}, {"op-cmd", "gnp"}, {"op-interactive", "gnp"}, {"op-callbacks", "g"}, {"op-prompt", "gnp"},
-	{"op-rpc-reply", "c"}, {"op-rpc-stall", "c"}, {"open-auth", "gn"}, {"open-hello", "c"}, {"open-deadline", "ccc"},
-	{"onclose-ok", "gn"}, {"onclose-fail", "gn"}, {"onclose-hang", "gn"}, {"platform", "p"},
+	{"idle", "gnpc"}, {"op-cmd", "gnp"}, {"op-interactive", "gnp"}, {"op-callbacks", "ggg"}, {"op-prompt", "gnp"},
+	{"op-rpc-reply", "c"}, {"op-rpc-stall", "ccc"}, {"open-auth", "gn"}, {"open-hello", "ccc"}, {"open-deadline", "ccc"},
+	{"onclose-ok", "gn"}, {"onclose-fail", "gn"}, {"onclose-hang", "gn"}, {"platform", "ppp"},
 	{"pre-open", "gnpc"}, {"failed-open", "gnc"}, {"failed-onopen", "gn"}, {"auth-session", "gn"},
 	{"concurrent", "gnpc"}, {"streaming", "gnc"},
 }
